@@ -10,7 +10,7 @@ PROPERTY = dict(
 )
 OBLIGATIONS = [
     dict(ENG, name='X1.cancelRemainingTasks', harness='engine/h_cancel.cpp', entry='harness_cancel', noinline=['BuildEngineImpl20cancelRemainingTasks', 'BuildEngineImpl14taskIsComplete'],
-         expect_functions=['BuildEngineImpl20cancelRemainingTasks'], stubs=['_ZNSt18condition_variable4waitERSt11unique_lockISt5mutexE$=stub_cv_wait', '^pthread_mutex_lock$=stub_mutex_lock', '^pthread_mutex_unlock$=stub_mutex_unlock'], unwind=5, params_quick=[{}, {'VF_NEXT': 1}], timeout=900, cbmc_flags=['--object-bits', '12']),
+         expect_functions=['BuildEngineImpl20cancelRemainingTasks'], stubs=['_ZNSt18condition_variable4waitERSt11unique_lockISt5mutexE$=stub_cv_wait', '^pthread_mutex_lock$=stub_mutex_lock', '^pthread_mutex_unlock$=stub_mutex_unlock'], unwind=5, params_quick=[{}, {'VF_NEXT': 1}, {'VF_NEXT': 2}], timeout=900, cbmc_flags=['--object-bits', '12']),
     dict(ENG, name='X3.cancel-flag', harness='engine/h_cancelflag.cpp', entry='harness_cancelflag', noinline=['BuildEngineImpl12executeTasks'], expect_functions=['BuildEngineImpl12executeTasks'],
          stubs=EXEC_STUBS, unwind=4, params_quick=[{}], timeout=600),
     dict(ENG, name='X3.build-brackets', harness='engine/h_build.cpp', entry='harness_build', noinline=['BuildEngineImpl5buildERKN7llbuild4core7KeyTypeE'], expect_functions=['BuildEngineImpl5buildERKN7llbuild4core7KeyTypeE'],
